@@ -25,16 +25,28 @@ if os.path.exists(mut):
         for r in rows:
             f.write(f'| {r[0]} | {r[1]} | {r[2]} | {r[3].replace("|", "/")} |\n')
     print('mutants:', len(rows))
-if seed and os.path.exists(seed):
-    rows = []
-    for ln in open(seed):
+# seeded changes: any number of logs (cross-matrix logs and target-check logs of tools/seeded_check.py); the union of the
+# checks that caught a change over all logs is reported, together with what the change needs in order to manifest
+import glob
+seed_logs = sys.argv[2:] or sorted(glob.glob(os.path.join(ROOT, 'seeded', '_logs', '*.log')))
+caught = {}
+for lg in seed_logs:
+    if not os.path.exists(lg):
+        continue
+    for ln in open(lg, errors='replace'):
         m = re.match(r'^(C\d\d-\S+)\s+(CAUGHT by (\S+)|MISSED|PATCH DOES NOT APPLY)', ln)
         if m:
-            rows.append((m.group(1), m.group(3) or m.group(2)))
-    with open(os.path.join(ROOT, 'seeded', 'RESULTS.md'), 'w') as f:
-        f.write('# Seeded changes (written by independent sub-agents) against the quick tier of ALL checks\n\n')
-        f.write('| seeded change | needs to manifest | caught by |\n|---|---|---|\n')
-        for name, by in rows:
-            meta = json.load(open(os.path.join(ROOT, 'seeded', name, 'meta.json')))
-            f.write(f'| {name} | {meta["needs_to_manifest"]} | {by} |\n')
-    print('seeded:', len(rows))
+            caught.setdefault(m.group(1), set())
+            if m.group(3):
+                caught[m.group(1)].update(m.group(3).split(','))
+names = sorted(d for d in os.listdir(os.path.join(ROOT, 'seeded')) if os.path.isdir(os.path.join(ROOT, 'seeded', d)) and not d.startswith('_'))
+with open(os.path.join(ROOT, 'seeded', 'RESULTS.md'), 'w') as f:
+    f.write('# Seeded changes (written by independent sub-agents) and the checks that catch them (quick tier)\n\n')
+    f.write('Union over the logs in `seeded/_logs/` (cross matrices against all 20 checks for rounds 1-4, target and neighbouring checks for the later rounds). '
+            'A change listed without a check has not been run since it was stored.\n\n')
+    f.write(f'{sum(1 for n in names if caught.get(n))} of {len(names)} stored changes are caught.\n\n')
+    f.write('| seeded change | needs to manifest | caught by |\n|---|---|---|\n')
+    for name in names:
+        meta = json.load(open(os.path.join(ROOT, 'seeded', name, 'meta.json')))
+        f.write(f'| {name} | {meta["needs_to_manifest"]} | {", ".join(sorted(caught.get(name, []))) or "-"} |\n')
+print('seeded:', len(names), 'caught:', sum(1 for n in names if caught.get(n)))
